@@ -179,7 +179,7 @@ def directed_cases():
 
 
 # ------------------------------------------------------------------------------------------------- the q_check
-PROFILES = ("core", "select", "done", "history", "histdirected", "actions", "faults", "loops")
+PROFILES = ("core", "select", "done", "history", "histdirected", "actions", "faults", "loops", "probe")
 
 
 def c05_pure_tie(tier, seed, n=50):
